@@ -8,7 +8,7 @@ import (
 // PoolChoice, when non-nil, decides what Pool.Get returns when the pool is not empty:
 // 0 = the most recently Put object (default), 1 = a fresh object from New, 2 = the oldest object.
 // It models sync.Pool's freedom to drop or reorder cached objects.
-var PoolChoice func(avail int) int
+var PoolChoice func(p *Pool, avail int) int
 
 // Counters for evidence / sanity (reset by the harness).
 var (
@@ -39,7 +39,7 @@ func (p *Pool) Get() interface{} {
 	n := len(p.items)
 	c := 0
 	if n > 0 && PoolChoice != nil {
-		c = PoolChoice(n)
+		c = PoolChoice(p, n)
 	}
 	if n == 0 || c == 1 {
 		p.mu.Unlock()
